@@ -85,6 +85,7 @@ func c31(c *Ctx) {
 			c.MustFact(cl, "close-only-if-not-closed", Truth(FieldLoad(fClosed), false))
 			c.MustFact(cl, "close-only-if-backlog-empty", CmpInt(LenOf(FieldLoad(fBack)), token.LEQ, 0))
 			mark := one(c, "closed=true in Load", storesToField(ld, fClosed))
+			c.ValueIs(mark, mark.Val, "Load:marks-closed-true", ConstBool(true))
 			c.Dominates(mark, cl, "mark-closed-before-close")
 		})
 		c.Ob(cp.tag+"/close-once", "R11", "Close: idempotent via the closing flag; closes the channel only with an empty backlog, after marking closed; the channel is closed nowhere else", 5, func() {
@@ -93,6 +94,7 @@ func c31(c *Ctx) {
 			c.MustFact(cl, "first-close-call", Truth(FieldLoad(fClosing), false))
 			c.MustFact(cl, "backlog-empty", CmpInt(LenOf(FieldLoad(fBack)), token.EQL, 0))
 			mark := one(c, "closed=true in Close", storesToField(cf, fClosed))
+			c.ValueIs(mark, mark.Val, "Close:marks-closed-true", ConstBool(true))
 			c.Dominates(mark, cl, "mark-closed-before-close")
 			setc := one(c, "closing=true in Close", storesToField(cf, fClosing))
 			c.MustFact(setc, "closing-test-and-set", Truth(FieldLoad(fClosing), false))
